@@ -236,6 +236,35 @@ def run(check):
             docs = [d for d in docs if d[2]][:1] + docs  # a valid one first
         case = {"id": "c14-c%04d" % k, "files": prog.files(), "scripts": gen.make_scripts([a], {}), "runs": [dict({"input": {"tag": t, "n": n}, "tag": "r%d" % q}, **({"parallel": True} if k % 3 == 2 else {})) for q, (t, n, ok) in enumerate(docs)]}
         constrained.append((case, docs))
+    # one prepared workflow run with inputs of different shape in turn: every field spelled out, fields left to their defaults,
+    # values that need converting ("7" for an integer); each run sees its own normalised input
+    shaped = []
+    for k in range(check.pick(8, 40)):
+        rng = random.Random(derive_seed(check.seed, "c14-shaped", k))
+        a = gen.plugin_step("a", Expr(In("tag")), extra_input={"n": Expr(In("n"))})
+        prog = Program([a], {"success": {"a": gen.tagref("a"), "n": Expr(In("n")), "flag": Expr(In("flag")), "an": Expr(Ref("a", "outputs", "success", "n"))}}, gen.BASE_INPUT)
+        docs = [({"tag": "full%d" % k, "n": 5, "flag": False}, 5, False), ({"tag": "dflt%d" % k}, 3, True), ({"tag": "conv%d" % k, "n": "7", "flag": "false"}, 7, False), ({"tag": "part%d" % k, "flag": True}, 3, True),
+                ({"tag": "full2_%d" % k, "n": 1, "flag": True}, 1, True)]
+        if k % 2:
+            rng.shuffle(docs)
+        if k % 4 >= 2:
+            docs = [docs[0]] * 1 + docs
+        case = {"id": "c14-s%04d" % k, "files": prog.files(), "scripts": gen.make_scripts([a], {}), "runs": [dict({"input": d, "tag": "r%d" % q}, **({"parallel": True} if k % 3 == 2 else {})) for q, (d, n, f) in enumerate(docs)]}
+        shaped.append((case, docs))
+    # expressions that read the environment (getEnvVar) with the environment changing between the runs of one prepared workflow:
+    # each run returns what a first run would return at that moment
+    from ..model import Call, Lit
+    envcases = []
+    for k in range(check.pick(4, 16)):
+        var = "VERIF_C14_%d" % k
+        a = gen.plugin_step("a", Expr(Call("getEnvVar", Lit(var), Lit("unset"))))
+        outs = {"success": {"a": gen.tagref("a"), "e": Expr(Call("getEnvVar", Lit(var), Lit("unset"))), "l": Expr(Call("splitString", Call("getEnvVar", Lit(var), Lit("u,v")), Lit(",")))}}
+        if k % 2:
+            outs["success"]["c"] = Expr(Call("toUpper", Lit("constant")))
+        prog = Program([a], outs, gen.BASE_INPUT)
+        values = ["east", "west", "", "north,south"][: 3 + k % 2]
+        case = {"id": "c14-v%04d" % k, "files": prog.files(), "scripts": gen.make_scripts([a], {}), "runs": [{"input": {"tag": "T%d" % q}, "tag": "r%d" % q, "setenv": {var: v}} for q, v in enumerate(values)]}
+        envcases.append((case, values))
     stats = {"runs_checked": 0, "overlapped_groups": 0, "cancelled_runs": 0, "runs_after_failed_or_cancelled": 0, "max_overlap": 0}
     with harness.Runner() as rn:
         if not rn.hang_oracle_works():
@@ -243,6 +272,44 @@ def run(check):
         out = rn.run_cases(items + papi, per_case_timeout=120)
         hout = rn.run_cases([c for c, _w in hist], per_case_timeout=120)
         cout = rn.run_cases([c for c, _d in constrained], per_case_timeout=120)
+        sout = rn.run_cases([c for c, _d in shaped], per_case_timeout=120)
+        vout = rn.run_cases([c for c, _v in envcases], per_case_timeout=120)
+    for case, values in envcases:
+        o = vout.get(case["id"], {})
+        check.count()
+        res = o.get("result") or {}
+        runs = res.get("runs") or []
+        if "death" in o or res.get("prepare_err") or res.get("parse_err") or len(runs) != len(values):
+            check.inconclusive_case(case["id"], str(o.get("death", {}).get("key") or res.get("prepare_err") or "runs missing"))
+            continue
+        for q, v in enumerate(values):
+            data = ref.denum(runs[q].get("data")) or {}
+            want_e = v if v else "unset"
+            want_l = (v if v else "u,v").split(",")
+            if runs[q].get("out_id") != "success" or data.get("e") != want_e or data.get("l") != want_l or data.get("a") != "a(%s)" % want_e:
+                check.report("runs@environment:value-of-earlier-run", "environment variable set to %s before the runs in turn: run %d returned %r / %s, expected e=%r l=%r" % (
+                    values, q, runs[q].get("data"), (runs[q].get("err") or "")[:150], want_e, want_l), {"case": case})
+                break
+        check.nontrivial("environment|%d" % len(values))
+    for case, docs in shaped:
+        o = sout.get(case["id"], {})
+        check.count()
+        res = o.get("result") or {}
+        runs = res.get("runs") or []
+        if "death" in o or res.get("prepare_err") or res.get("parse_err") or len(runs) != len(docs):
+            check.inconclusive_case(case["id"], str(o.get("death", {}).get("key") or res.get("prepare_err") or "runs missing"))
+            continue
+        by_tag = {r.get("tag"): r for r in runs}
+        for q, (d, n, f) in enumerate(docs):
+            r = by_tag.get("r%d" % q) or {}
+            data = ref.denum(r.get("data")) or {}
+            want = {"a": "a(%s)" % d["tag"], "n": n, "flag": f, "an": n + 1}
+            if r.get("out_id") != "success" or data != want:
+                check.report("runs@input-shape:result-differs", "one prepared workflow run with inputs %s in turn: run %d (input %r) returned %r / %r / %s, expected %r" % (
+                    [x[0] for x in docs], q, d, r.get("out_id"), r.get("data"), (r.get("err") or "")[:150], want), {"case": case})
+                break
+        stats["input_shape_runs"] = stats.get("input_shape_runs", 0) + len(docs)
+        check.nontrivial("shaped|%d|%s" % (len(docs), [sorted(x[0]) for x in docs][:2]))
     for case, docs in constrained:
         o = cout.get(case["id"], {})
         check.count()
